@@ -8,7 +8,7 @@ import threading
 
 import numpy as np
 
-WRITERS = ["sweep", "nsga2", "nsga2_threads", "epsmoea", "omopso", "smpso"]
+WRITERS = ["sweep", "nsga2", "nsga2_threads", "epsmoea", "omopso", "smpso", "bulk_sync_all"]
 N_PARAMS = 2
 
 
@@ -83,6 +83,19 @@ def run_writer(kind, path, retlog, seed, on_event=None, marker=None):
         elif kind in ("omopso", "smpso"):
             a = insitu.make(kind, p, 4, 2)
             a.run()
+        elif kind == "bulk_sync_all":
+            # one big transaction: 450 recorded designs with a few KB of custom data each (more than SQLite's page cache holds),
+            # written by a single sync_all -- uncommitted pages spill into the file before the commit
+            rr_ = __import__("random").Random(seed)
+            for k_ in range(450):
+                vec = [rr_.uniform(-1, 1), rr_.uniform(-1, 1)]
+                ind = Individual(vec)
+                ind.costs = objective(vec)
+                ind.costs_signed = expected_signed(ind.costs) + [True]
+                ind.state = Individual.State.EVALUATED
+                ind.custom = {"field": [rr_.random() for _ in range(350)]}
+                p.individuals.append(ind)
+            store.sync_all()
         else:
             raise ValueError(kind)
     finally:
